@@ -163,6 +163,11 @@ def ast_mutations(expr: str) -> Iterator[Tuple[str, str]]:
                 def e(m):
                     m.left, m.comparators[0] = m.comparators[0], m.left
                 yield "expr_swap_ordering", variant(e)
+        elif isinstance(n, ast.BoolOp) and len(n.values) >= 2 and key(n.values[0]) != key(n.values[-1]):
+            # `a and b` / `a or b` return one of their operands: exchanging them changes the value for numbers
+            def e(m):
+                m.values[0], m.values[-1] = m.values[-1], m.values[0]
+            yield "expr_swap_boolean_operands", variant(e)
         elif isinstance(n, ast.IfExp) and key(n.body) != key(n.orelse):
             def e(m):
                 m.body, m.orelse = m.orelse, m.body
@@ -399,6 +404,20 @@ def special_clauses(col: Collector) -> None:
         for f in ("semantic_id", "config_id"):
             if a.get(f) == b.get(f):
                 col.add("mutation_keeps_" + f, {"op": "special_same_named_wrapped_classes"}, {"special": "same_named_wrapped_classes"}, a.get(f), "a different " + f)
+    # (1b) any parameter value: the string-valued parameters of the model-fitting context processor
+    base_params = {"fitting_model": "model:PolynomialFittingModel:degree=1", "independent_var_key": "t_values", "dependent_var_key": "measured", "context_key": "fit_out"}
+    fit = lambda params: ident([{"processor": "FloatDataSource"}, {"processor": "ModelFittingContextProcessor", "parameters": dict(params)}])  # noqa: E731
+    ra = fit(base_params)
+    for pname, other in (("independent_var_key", "x_values"), ("dependent_var_key", "observed"), ("context_key", "fit_other"), ("fitting_model", "model:PolynomialFittingModel:degree=2")):
+        rb = fit(dict(base_params, **{pname: other}))
+        case = {"special": "model_fitting_parameter", "parameter": pname}
+        col.count(case, ["op:special_model_fitting_parameter"], True, key="special:fit:" + pname)
+        if "payload_error" in ra or "payload_error" in rb:
+            col.exclude(1, "special_not_inspectable")
+            continue
+        for f in ("semantic_id", "config_id", "uuids"):
+            if ra.get(f) == rb.get(f):
+                col.add("mutation_keeps_" + ("node_identity" if f == "uuids" else f), {"op": "special_model_fitting_parameter", "parameter": pname}, case, ra.get(f), "a different " + f)
     # (2) the variable domain: long sequences of numpy integers (not JSON values) changed at one position
     for n in (40, 1000, 1001, 1201):
         base = [np.int64(i) for i in range(n)]
@@ -466,8 +485,8 @@ OPS = ["processor", "processor_template_text", "processor_slice_wrapped", "proce
        "sweep_mode", "sweep_broadcast", "sweep_collection",
        "param_str_trailing_space", "param_str_leading_space", "param_str_case", "param_float_ulp", "param_float_sign", "param_list_reversed", "param_list_length",
        "param_dict_key", "sweep_var_sequence_swap_adjacent", "sweep_var_sequence_reversed",
-       "sweep_var_sequence_retyped", "special_same_named_wrapped_classes", "sweep_expr_swap_noncommutative", "sweep_expr_chain_operands", "sweep_expr_swap_branches", "sweep_expr_min_max"]
+       "sweep_var_sequence_retyped", "special_same_named_wrapped_classes", "special_model_fitting_parameter", "sweep_expr_swap_boolean_operands", "sweep_expr_swap_noncommutative", "sweep_expr_chain_operands", "sweep_expr_swap_branches", "sweep_expr_min_max"]
 
 
 def label_requirements(tier: str) -> Dict[str, Any]:
-    return {"op:" + o: (1 if o.startswith("special_") else 15 if o in ("sweep_var_scale", "processor_dotted_key") else 40) for o in OPS}
+    return {"op:" + o: (1 if o.startswith("special_") else 10 if o in ("sweep_var_scale", "processor_dotted_key", "sweep_expr_swap_boolean_operands") else 40) for o in OPS}
